@@ -37,11 +37,34 @@ def lazy_fields(prog):
     return out
 
 
+PLACE_CALLS = ("deref_mut", "deref", "borrow_mut", "borrow", "as_mut", "as_ref", "as_ptr", "index_mut", "index", "get_mut",
+               "unwrap", "expect", "as_mut_slice", "as_slice", "last_mut", "first_mut", "iter_mut", "get_unchecked_mut")
+
+
 def _field_of_self(t, names):
-    """t reaches into self.<field> for a field in names: returns the field name"""
-    for x in [strip(t)] + list(mir.subterms(t)):
-        if isinstance(x, tuple) and x and x[0] == "field" and x[2] in names and strip(x[1]) == ("param", 1):
-            return x[2]
+    """t is a place inside self.<field> for a field in names (the field itself, an element of it, what a borrow of its cell
+    gives): returns the field name.  A value merely *computed from* the field (a sorted copy, a collected vector) is not
+    a place in it."""
+    x = strip(t)
+    for _ in range(12):
+        if not isinstance(x, tuple) or not x:
+            return None
+        if x[0] == "field":
+            if x[2] in names and strip(x[1]) in (("param", 1), ("deref", ("param", 1))):
+                return x[2]
+            x = strip(x[1])
+        elif x[0] in ("ref", "deref", "mutref_of") and len(x) > 1 and isinstance(x[1], tuple):
+            x = strip(x[1])
+        elif x[0] == "index" and isinstance(x[1], tuple):
+            x = strip(x[1])
+        elif x[0] == "as" and isinstance(x[1], tuple):
+            x = strip(x[1])
+        elif x[0] == "call" and x[1].name in PLACE_CALLS and x[2]:
+            x = strip(x[2][0])
+        elif x[0] == "mut" and len(x) > 3 and isinstance(x[3], tuple):
+            x = strip(x[3])
+        else:
+            return None
     return None
 
 
